@@ -257,6 +257,22 @@ fn run_inner(line: &str, with_ref: bool) -> String {
                 };
                 h.w.exec(ix, &[h.auths[a]])
             }
+            34 | 35 => {
+                // borrow (34) / withdraw (35) WITHOUT the risk (bank / oracle) remaining accounts
+                let a = t.usize();
+                let b = t.usize();
+                let amt = t.u64();
+                let flag = if op == 34 { false } else { t.bool() };
+                let bank = h.banks[b];
+                let ctx = bank_ctx(&h.w, &bank);
+                let rem: Vec<AccountMeta> = ctx.mint_prefix.clone();
+                let ix = if op == 34 {
+                    ixs::lending_account_borrow(group, h.accts[a], h.auths[a], bank, h.utok[a][b], h.tprog[b], amt, rem)
+                } else {
+                    ixs::lending_account_withdraw(group, h.accts[a], h.auths[a], bank, h.utok[a][b], h.tprog[b], amt, Some(flag), rem)
+                };
+                h.w.exec(ix, &[h.auths[a]])
+            }
             7 => {
                 let a = t.usize();
                 let b = t.usize();
